@@ -441,3 +441,21 @@ def _vec_deref_mut(ctx, a, ty, c):
 def _sort(ctx, a, ty, c):
     """Order of an abstract vector is not modelled (multiset view): sorting is the identity."""
     return UNIT
+
+
+@summary(r"^<Vec<.*> as Extend<.*>>::extend::<.*>$")
+def _vec_extend(ctx, a, ty, c):
+    v = obj_at(ctx, a[0], mk_vec)
+    src = a[1]
+    if isinstance(src, Obj) and src.kind == "vec" and v.kind == "vec" and z3.is_bv_value(z3.simplify(src.base_len)) \
+            and z3.simplify(src.base_len).as_long() == 0:
+        v.pushed.extend(src.pushed)
+        return UNIT
+    if isinstance(src, Obj) and src.kind == "it" and v.kind == "vec":
+        from .iterators import pull
+        while True:
+            x = pull(ctx, src)
+            if x is None:
+                return UNIT
+            v.pushed.append(x)
+    raise Unsupported("Vec::extend with %r" % (src,))
